@@ -929,4 +929,60 @@ theorem quic_connection_exact_partial (maskFn : Dissect.MaskFn) (info : Nat → 
     (keysWf_rfc H hl Pc kl cs sel hsel .v1 ho sa ca hs hc) items c 0 0 lc ls cc sc hr hest hprev hcar hsend htimes
 
 end Handshake
+
+/-- `hprev` of the main theorem is what a handshake without 0-RTT leaves: CRYPTO frames (and the Version Negotiation
+    pseudo frame) are not exported without `-a` -/
+theorem crypto_not_exported (o : Out) (h : ∀ ft l fin lb ob sid off dl d, o.frame ≠ .parsed (.stream ft l fin lb ob sid off dl d)) :
+    UdpOut.exported false (frameOf o) = none := by
+  unfold frameOf
+  split
+  · simp [UdpOut.exported, UdpOut.isStream]
+  · rename_i ft l fin lb ob sid off dl d heq; exact absurd heq (h ft l fin lb ob sid off dl d)
+  · simp [UdpOut.exported, UdpOut.isStream]
+  · simp [UdpOut.exported, UdpOut.isStream]
+
+namespace Ex
+open TLX.Crypto
+
+/-- lawful toy hashes with SHA-256's / SHA-384's output lengths -/
+def H32 : Crypto.Prims := ⟨Crypto.toy 16, Crypto.toy 20, Crypto.toy 32, Crypto.toy 48⟩
+
+-- `first_initial_rfc`: its hypothesis is satisfiable
+example := first_initial_rfc H32 Pc [] rfl [0x83, 0x94, 0xc8, 0xf0, 0x3e, 0x51, 0x57, 0x08]
+
+def crx : Bytes := [0xab, 0xcd]
+/-- the connection's key-log lines (client random `abcd`), one line of another connection, in file order -/
+def klx : List Keylog.Key :=
+  [⟨Keylog.s_CTS0, Keylog.hexOf [0xab, 0xcd], Keylog.hexOf [5, 6, 7, 8]⟩,
+   ⟨Keylog.s_CHTS, Keylog.hexOf [0xab, 0xcd], Keylog.hexOf [1, 1, 1, 1]⟩,
+   ⟨Keylog.s_STS0, Keylog.hexOf [0x11, 0x22], Keylog.hexOf [9, 9, 9, 9]⟩,
+   ⟨Keylog.s_SHTS, Keylog.hexOf [0xab, 0xcd], Keylog.hexOf [2, 2, 2, 2]⟩,
+   ⟨Keylog.s_STS0, Keylog.hexOf [0xab, 0xcd], Keylog.hexOf [1, 2, 3, 4]⟩]
+
+def sksx : List Keylog.Key :=
+  [⟨Keylog.s_CTS0, Keylog.hexOf [0xab, 0xcd], Keylog.hexOf [5, 6, 7, 8]⟩,
+   ⟨Keylog.s_CHTS, Keylog.hexOf [0xab, 0xcd], Keylog.hexOf [1, 1, 1, 1]⟩,
+   ⟨Keylog.s_SHTS, Keylog.hexOf [0xab, 0xcd], Keylog.hexOf [2, 2, 2, 2]⟩,
+   ⟨Keylog.s_STS0, Keylog.hexOf [0xab, 0xcd], Keylog.hexOf [1, 2, 3, 4]⟩]
+
+def ssx : List KeySchedule.Secret :=
+  [(.clientTraffic0, [5, 6, 7, 8]), (.clientHandshake, [1, 1, 1, 1]), (.serverHandshake, [2, 2, 2, 2]),
+   (.serverTraffic0, [1, 2, 3, 4])]
+
+theorem keylogHas : KeylogHas klx crx [1, 1, 1, 1] [2, 2, 2, 2] ca sa none :=
+  ⟨⟨sksx, ssx, by decide, by decide, by decide, by decide, by decide, by decide, by decide⟩⟩
+
+/-- the session right after the ServerHello was parsed: client random and suite known, `new_data` set, Initial decryptor
+    there, nothing decrypted at 1-RTT level yet -/
+def sHello : St Tls :=
+  { tls := { ver := .v1, msgs := { clientRandom := some crx, ciphersuite := some [0x13, 0x01], newData := true } },
+    version := .v1, decInitial := some { alg := .aesgcm, server := none, client := ⟨[], []⟩ },
+    clientCids := [[0xc1]], serverCids := [[0x51]] }
+
+-- `hello_establishes_rfc` applies, and what it establishes is the state `quic_one_rtt_connection_exact` starts from
+example : Est H Pc klx sel .v1 k0 hpC hpS false (afterTls (params H Pc klx) sHello).1 0 0 0 0 [[0xc1]] [[0x51]] :=
+  (hello_establishes_rfc H Pc klx sHello rfl rfl crx [0x13, 0x01] [1, 1, 1, 1] [2, 2, 2, 2] ca sa none sel rfl rfl rfl rfl
+    (by decide) keylogHas rfl ⟨rfl, rfl, rfl, rfl⟩).2.1
+
+end Ex
 end TLX.Props.C02Capstone
